@@ -2,6 +2,7 @@ package syncx_test
 
 import (
 	"fmt"
+	"runtime"
 	"sync"
 	"sync/atomic"
 	"testing"
@@ -25,6 +26,7 @@ import (
 
 type c18Res struct {
 	id        int
+	pool      int // the pool instance that created it
 	held      atomic.Int32
 	destroyed atomic.Int32
 	lastPut   time.Duration // virtual instant of the last Put; written by the holder before Put
@@ -32,6 +34,7 @@ type c18Res struct {
 }
 
 type c18PoolEvt struct {
+	M    int    // pool instance
 	Kind string // create destroy
 	ID   int
 	At   c18Stamp
@@ -54,7 +57,7 @@ func c18PoolInterp(t *testing.T, c c18Case) kit.Verdict {
 		bad = append(bad, fmt.Sprintf(format, args...))
 		mu.Unlock()
 	}
-	log, res := c18PlayRounds(t, c, true, func(clk *c18Clock, log *c18Log) (func(g, i int, op c18Op), func()) {
+	full, res := c18PlayRounds(t, c, true, func(clk *c18Clock, log *c18Log) (func(g, i int, op c18Op), func()) {
 		var nres, ncreate, ndestroy atomic.Int64
 		plan := func(n int64) c18Op {
 			if len(c.F) == 0 {
@@ -62,16 +65,26 @@ func c18PoolInterp(t *testing.T, c c18Case) kit.Verdict {
 			}
 			return c.F[int(n-1)%len(c.F)]
 		}
+		// two pools of the same limit and maximum age live side by side; each has
+		// its own create/destroy and must only ever see its own resources
+		pools := make([]*syncx.Pool, c18Inst)
+		for m := 0; m < c18Inst; m++ {
+		m := m
 		create := func() interface{} {
 			if plan(ncreate.Add(1)).A == 2 {
 				mu.Lock()
-				pevs = append(pevs, c18PoolEvt{Kind: "create-panic", At: clk.now()})
+				pevs = append(pevs, c18PoolEvt{M: m, Kind: "create-panic", At: clk.now()})
 				mu.Unlock()
 				panic(c18Panic{"pool create"})
 			}
-			r := &c18Res{id: int(nres.Add(1))}
+			// no sleep (see above), but a few yields: they are harmless while Get
+			// holds the pool's lock and widen the window if it does not
+			for y := 0; y < 3; y++ {
+				runtime.Gosched()
+			}
+			r := &c18Res{id: int(nres.Add(1)), pool: m}
 			mu.Lock()
-			pevs = append(pevs, c18PoolEvt{Kind: "create", ID: r.id, At: clk.now()})
+			pevs = append(pevs, c18PoolEvt{M: m, Kind: "create", ID: r.id, At: clk.now()})
 			mu.Unlock()
 			return r
 		}
@@ -82,6 +95,9 @@ func c18PoolInterp(t *testing.T, c c18Case) kit.Verdict {
 				return
 			}
 			at := clk.now()
+			if r.pool != m {
+				flag("pool %d destroyed resource %d, which pool %d created", m, r.id, r.pool)
+			}
 			if r.held.Load() != 0 {
 				flag("pool: resource %d destroyed while a holder still has it", r.id)
 			}
@@ -89,7 +105,7 @@ func c18PoolInterp(t *testing.T, c c18Case) kit.Verdict {
 				flag("pool: resource %d destroyed twice", r.id)
 			}
 			mu.Lock()
-			pevs = append(pevs, c18PoolEvt{Kind: "destroy", ID: r.id, At: at, Idle: at.T - r.lastPut})
+			pevs = append(pevs, c18PoolEvt{M: m, Kind: "destroy", ID: r.id, At: at, Idle: at.T - r.lastPut})
 			mu.Unlock()
 			if plan(ndestroy.Add(1)).Key == 1 {
 				panic(c18Panic{"pool destroy"})
@@ -99,8 +115,10 @@ func c18PoolInterp(t *testing.T, c c18Case) kit.Verdict {
 		if c.P > 0 {
 			opts = append(opts, syncx.WithMaxAge(maxAge))
 		}
-		pool := syncx.NewPool(c.N, create, destroy, opts...)
+		pools[m] = syncx.NewPool(c.N, create, destroy, opts...)
+		}
 		return func(g, i int, op c18Op) {
+			pool := pools[op.M]
 			if op.K == "putnil" {
 				pool.Put(nil)
 				return
@@ -126,6 +144,9 @@ func c18PoolInterp(t *testing.T, c c18Case) kit.Verdict {
 				return
 			}
 			ev.Val = r.id
+			if r.pool != op.M {
+				flag("pool %d handed out resource %d, which pool %d created", op.M, r.id, r.pool)
+			}
 			if r.held.Add(1) != 1 {
 				flag("pool: resource %d handed to g%d#%d while another holder still has it", r.id, g, i)
 			}
@@ -174,6 +195,16 @@ func c18PoolInterp(t *testing.T, c c18Case) kit.Verdict {
 		// above only (never MORE than the limit); a lost slot is unspecified.
 		v.class("hang-after-create-panic(slot lost; unspecified, tolerated)")
 		res = kit.BubbleResult{}
+	}
+	allPevs := pevs
+	for inst := 0; inst < c18Inst; inst++ {
+	// every pool is judged on its own history against its own limit
+	log := full.inst(inst)
+	var pevs []c18PoolEvt
+	for _, pe := range allPevs {
+		if pe.M == inst {
+			pevs = append(pevs, pe)
+		}
 	}
 	// live resources = creates - destroys, in the pool's own order
 	live, created := 0, 0
@@ -264,6 +295,7 @@ func c18PoolInterp(t *testing.T, c c18Case) kit.Verdict {
 			}
 		}
 	}
+	}
 	return v.done(res)
 }
 
@@ -282,6 +314,7 @@ func c18PoolGen(rt *rapid.T) c18Case {
 		}
 		return op
 	})
+	c18DrawInstances(rt, c.Gs)
 	// plan for the n-th create (A=2: panics) and the n-th destroy (Key=1: panics)
 	if rapid.IntRange(0, 1).Draw(rt, "callbackPanics") == 0 {
 		nf := rapid.IntRange(1, 5).Draw(rt, "nf")
